@@ -51,7 +51,7 @@ CHECKS = {
         text='Theorems dispatch_closed / compose_spec / first_match_spec / undefined_header: on the model of SCPI_Parse the handler starts of a message are, in order and exactly once, the first table entry accepting each unit\'s effective header computed from the message text alone; an undefined header starts no handler and queues one -113 with the unit text; units_accounted / undefined_count: in every message the number of -113 errors equals the number of units with an undefined header, for all handler scripts that do not push -113 themselves. Tied by differential execution of generated multi-unit messages over overlapping tables; an independent reference (effective-header rule + short/long-form matcher) judges the implementation\'s own traces.',
         technique='Coq proof (induction over the unit loop with the in-place header composition) + correspondence + reference dispatcher oracle', design='7/C02'),
     'C03': dict(
-        text='Theorem match_language: for every well-formed unambiguous pattern (rendered from an item list) and every non-empty header, the model of matchCommand accepts iff the header is in the short/long-form language (greedy item matcher = nondeterministic language, then concrete loop = greedy matcher). seg_ok_spec: a keyword accepts exactly its long or its short form (any case) followed by digits only when it is KEY#. match_numbers (with match_top_nums, greedyN_reads, sval_spec): with a numbers array the same headers are accepted and, for EVERY reading of the header in the pattern\'s language, the array holds that reading\'s suffixes in keyword order -- the decimal value written after a KEY#, the caller\'s default where the digits or the whole keyword were left out -- and entries beyond the array\'s capacity are dropped. Correspondence and an independent reference matcher judge the implementation.',
+        text='Theorem match_language: for every well-formed unambiguous pattern (rendered from an item list) and every non-empty header, the model of matchCommand accepts iff the header is in the short/long-form language (greedy item matcher = nondeterministic language, then concrete loop = greedy matcher). seg_ok_spec: a keyword accepts exactly its long or its short form (any case) followed by digits only when it is KEY#. match_numbers (with match_top_nums, greedyN_reads, sval_spec): with a numbers array the same headers are accepted and, for EVERY reading of the header in the pattern\'s language, the array holds that reading\'s suffixes in keyword order -- the decimal value written after a KEY#, the caller\'s default where the digits or the whole keyword were left out -- and entries beyond the array\'s capacity are dropped. tie_ctype: islower/isupper/isdigit/isspace/tolower of the matcher and strtol models agree with the C library on all 256 byte values. Correspondence and an independent reference matcher judge the implementation.',
         technique='Coq proof (two-level refinement: concrete loop -> greedy item matcher -> language) + correspondence + reference matcher oracle', design='7/C03'),
     'C06': dict(
         text='Theorem framing: for every context (any history), message, command table and scripts, the bytes written by the model of SCPI_Parse are the join with ";" of the join with "," of the items of the responding units, followed by one line terminator and one flush iff some unit responded (script_framing_streamed / framing_streamed extend this to blocks streamed as header + data pieces and to array results, at script and at message level). Tied by differential execution; an independent framing function judges the implementation\'s output.',
